@@ -4,7 +4,7 @@ For each: (1) in a scratch worktree outside /repo and /verif: the 43 tests pass 
 with it and passes without it; (2) apply the patch to /repo, run the named property's quick check (and optionally
 others), record the VIOLATION lines, undo the patch straight afterwards."""
 import os, sys, json, subprocess, shutil, re, time
-SRC = "/tmp/mut_out"
+SRC = os.environ.get("SEED_SRC", "/tmp/mut_out")
 OUT = "/verif/seeded"
 WT = "/tmp/seed_eval_wt"
 WORKER = os.environ.get("SEED_WORKER", "")
